@@ -76,7 +76,7 @@ impl Node {
                 B::Silent => { /* never answer; keep reading until the client goes away */ }
                 B::Malformed => { let mut g = vec![0u8; 48]; g[8] = 0xAD; g[9] = 0xDE; let _ = s.write_all(&g); }
                 B::AppError | B::Success | B::ClosedIdle => {
-                    let (ec, fmt, body): (u32, u16, Vec<u8>) = if mode == B::AppError { (4096, 3, b"application says no".to_vec()) } else { (0, 2, b"{\"ok\":true}".to_vec()) };
+                    let (ec, fmt, body): (u32, u16, Vec<u8>) = if mode == B::AppError { ([4096u32, 7, 8, 9, 6][(self.requests.load(Ordering::SeqCst) % 5) as usize], 3, b"application says no".to_vec()) } else { (0, 2, b"{\"ok\":true}".to_vec()) };
                     let mut f = Vec::new();
                     f.extend_from_slice(&((48 + query.len() + body.len()) as u64).to_le_bytes());
                     f.extend_from_slice(&0x1507u16.to_le_bytes()); f.push(1); f.push(0); f.extend_from_slice(&0u32.to_le_bytes());
